@@ -192,6 +192,40 @@ theorem C16_fail_no_release_enc0 (accept : Bool) (ctx : AadCtx) (prot iv : Bytes
       | none => rfl
       | some k => simpa using h k aad ct h3 h2 h1
 
+/-- **A recipient list decrypts iff SOME recipient does.** `verify_bcb_target` walks the recipients and
+    keeps the first plaintext obtained; a later recipient that is not ours cannot undo it. -/
+theorem C16_some_recipient_suffices (iv aad ct : Bytes) :
+    ∀ (rs : List Recipient),
+      (firstPlain P store iv aad ct rs).isSome = true ↔
+        ∃ r ∈ rs, (encRecipPlain P store iv aad ct r).isSome = true
+  | [] => by simp [firstPlain]
+  | r :: rs => by
+    have ih := C16_some_recipient_suffices iv aad ct rs
+    unfold firstPlain
+    cases h : encRecipPlain P store iv aad ct r with
+    | some p => simp [h]
+    | none => simp [h, ih]
+
+/-- **…independent of the order of the recipients.** Two recipient lists with the same members either
+    both yield a plaintext or both fail. -/
+theorem C16_recipient_order_irrelevant (iv aad ct : Bytes) (rs rs' : List Recipient)
+    (h : ∀ r, r ∈ rs ↔ r ∈ rs') :
+    (firstPlain P store iv aad ct rs).isSome = (firstPlain P store iv aad ct rs').isSome := by
+  have a := C16_some_recipient_suffices P store iv aad ct rs
+  have b := C16_some_recipient_suffices P store iv aad ct rs'
+  have : (∃ r ∈ rs, (encRecipPlain P store iv aad ct r).isSome = true) ↔
+      (∃ r ∈ rs', (encRecipPlain P store iv aad ct r).isSome = true) := by
+    constructor
+    · rintro ⟨r, hr, hp⟩; exact ⟨r, (h r).mp hr, hp⟩
+    · rintro ⟨r, hr, hp⟩; exact ⟨r, (h r).mpr hr, hp⟩
+  have key : (firstPlain P store iv aad ct rs).isSome = true ↔ (firstPlain P store iv aad ct rs').isSome = true :=
+    a.trans (this.trans b.symm)
+  cases h1 : (firstPlain P store iv aad ct rs).isSome <;> cases h2 : (firstPlain P store iv aad ct rs').isSome
+  · rfl
+  · exact absurd (key.mpr h2) (by simp [h1])
+  · exact absurd (key.mp h1) (by simp [h2])
+  · rfl
+
 /-- **A recorded failure is never withdrawn.** Once one target of a BCB failed, the block fails
     whatever the later targets do (all of them may decrypt): `verify_bcb` cannot return "no failure". -/
 theorem C16_failure_sticks (accept : Bool) (prim : Primary) (sb : SecBlock) :
@@ -368,6 +402,13 @@ example : C16ex.twoTargets.isSome = true ∧
     (verifyBcb C16ex.toyP C16ex.store C16ex.crc false (C16ex.corrupt C16ex.wire2 2) C16ex.sb2).1 = .failed 15 ∧
     C16ex.wire2.blocks ≠ C16ex.bundle2.blocks := by
   decide +kernel
+
+/-- our recipient first, in the middle or last among recipients for keys we do not hold: the same plaintext -/
+example : ∀ rs ∈ [[(⟨some [7], [1, 2, 3, 4, 9, 9]⟩ : Recipient), ⟨some [8], [0]⟩],
+                  [⟨some [8], [0]⟩, ⟨some [7], [1, 2, 3, 4, 9, 9]⟩],
+                  [⟨some [8], [0]⟩, ⟨some [7], [1, 2, 3, 4, 9, 9]⟩, ⟨some [7], [5]⟩]],
+    firstPlain C16ex.toyP C16ex.store [1] [2] (C16ex.toyP.aeadEnc [9, 9] [1] [2] [42]) rs = some [42] := by
+  decide
 
 /-- a receiver that sees a different primary block (covered) computes a different tag: rejected, target untouched -/
 example : ∃ m t, applyEnc0 C16ex.toyP C16ex.crc C16ex.ctx [0xa1, 1, 3] [7] [9, 9, 9] [1, 2, 3, 4] = some (m, t) ∧
